@@ -242,16 +242,24 @@ Inductive event :=
    in-memory set (redo-ood) *)
 Inductive chk := ChkDb | ChkMem (seen : list fid).
 
+(* the builder also takes "changed in this run" (built, or found changed, in
+   this run) for dealt with: a script is never run twice in one run (fix F23) *)
 Definition chk_is_checked (c : chk) (runid : Z) (r : row) (f : fid) : bool :=
-  match c with ChkDb => is_checked runid r | ChkMem l => existsb (Nat.eqb f) l end.
+  match c with ChkDb => is_checked runid r || is_changed runid r | ChkMem l => existsb (Nat.eqb f) l end.
 
 (* ---------------------------------------------------------------- is_dirty *)
 (* The walk over the recorded dependencies of row [r] (file id [f]); [isd] is
-   the recursive dirtiness check of a Modified dependency (open recursion). *)
+   the recursive dirtiness check of a Modified dependency (open recursion).
+   SNAPSHOTS: File::deps loads the rows of ALL dependencies with one query
+   before the walk; each dependency is then judged on that copy, however the
+   database has changed meanwhile (an earlier sibling's walk may have marked
+   the row checked, or forgotten it as a target).  [ds] therefore pairs every
+   edge with the row as loaded at query time, and [isd]/[is_dirty] take the
+   row they judge as an argument instead of reading it. *)
 Definition dirty_result := res (verdict * world * chk * list event).
 
-Fixpoint walk_deps (isd : world -> chk -> fid -> dirty_result) (runid : Z) (f : fid) (r : row)
-         (ds : list dep) (w : world) (c : chk) (must : list fid) (evs : list event) : dirty_result :=
+Fixpoint walk_deps (isd : world -> chk -> fid -> row -> dirty_result) (runid : Z) (f : fid) (r : row)
+         (ds : list (dep * row)) (w : world) (c : chk) (must : list fid) (evs : list event) : dirty_result :=
   match ds with
   | [] =>
       match must with
@@ -263,13 +271,12 @@ Fixpoint walk_deps (isd : world -> chk -> fid -> dirty_result) (runid : Z) (f : 
           | ChkMem l => Ret (VClean, w, ChkMem (f :: l), evs')
           end
       end
-  | d :: ds' =>
+  | (d, rs) :: ds' =>
       let sub :=
         match d_mode d with
         | DCreated =>
-            Ret (if exists_b w (r_name (get_row (dbs w) (d_source d))) then VDirty else VClean,
-                 w, c, [])
-        | DModified => isd w c (d_source d)
+            Ret (if exists_b w (r_name rs) then VDirty else VClean, w, c, [])
+        | DModified => isd w c (d_source d) rs
         end in
       match sub with
       | EFuel => EFuel
@@ -296,15 +303,19 @@ Definition forget_missing (w : world) (f : fid) (r : row) (ns : stamp) : world :
   | _ => w
   end.
 
-(* private_is_dirty; returns the verdict, the world (the database may have been
+(* the rows of the dependencies of [r], loaded now *)
+Definition deps_rows (runid : Z) (d : db) (r : row) (f : fid) : list (dep * row) :=
+  map (fun x => (x, load runid d (d_source x))) (deps_of d r f).
+
+(* private_is_dirty on file id [f], judged on the copy [r] of its row that the
+   caller holds; returns the verdict, the world (the database may have been
    written), the callback state, and override warnings *)
-Fixpoint is_dirty (fuel : nat) (runid : Z) (w : world) (c : chk) (f : fid)
+Fixpoint is_dirty (fuel : nat) (runid : Z) (w : world) (c : chk) (f : fid) (r : row)
          (max_changed : Z) (seen : list fid) : dirty_result :=
   match fuel with
   | O => EFuel
   | S fuel' =>
     if existsb (Nat.eqb f) seen then Ret (VCycle, w, c, []) else
-    let r := load runid (dbs w) f in
     match r_failed r with
     | Some _ => Ret (VDirty, w, c, [])
     | None =>
@@ -322,8 +333,8 @@ Fixpoint is_dirty (fuel : nat) (runid : Z) (w : world) (c : chk) (f : fid)
              forget_missing w f r ns, c, [])
       else
         let sub_max := Z.max chg (match r_checked r with Some k => k | None => 0%Z end) in
-        walk_deps (fun w c s => is_dirty fuel' runid w c s sub_max (f :: seen))
-                  runid f r (deps_of (dbs w) r f) w c [] []
+        walk_deps (fun w c s rs => is_dirty fuel' runid w c s rs sub_max (f :: seen))
+                  runid f r (deps_rows runid (dbs w) r f) w c [] []
     end end end
   end.
 
@@ -589,7 +600,7 @@ Definition start (rec : rec_t) (fuel : nat) (e : env) (m : mode) (t : name) (w :
   | MIfChange =>
       let r := load runid (dbs w) f in
       if is_failed runid r then Ret (w, [EvFailed32 t], 32%Z, false) else
-      match is_dirty fuel runid w ChkDb f runid [] with
+      match is_dirty fuel runid w ChkDb f r runid [] with
       | EFuel => EFuel
       | Ret (v, w, _, evd) =>
           let v := match v with
@@ -729,7 +740,7 @@ Definition exec (c : cmd) (w : world) : world * output :=
                  match acc with
                  | Ret (_, _, _, true) => acc
                  | Ret (w1, c1, out, cyc) =>
-                     match is_dirty fuel runid w1 c1 (fst x) runid [] with
+                     match is_dirty fuel runid w1 c1 (fst x) (snd x) runid [] with
                      | Ret (VClean, w2, c2, _) => Ret (w2, c2, out, cyc)
                      | Ret (VCycle, w2, c2, _) => Ret (w2, c2, out, true)
                      | Ret (_, w2, c2, _) => Ret (w2, c2, out ++ [r_name (snd x)], cyc)
